@@ -1157,8 +1157,12 @@ class Run:
                                    types=set(names))))
         if self.stmt_raiser is not None and isinstance(
                 s, (ast.Assign, ast.Expr, ast.Return, ast.AugAssign,
-                    ast.AnnAssign)):
-            types = self.stmt_raiser(s)
+                    ast.AnnAssign, ast.If, ast.While)):
+            probe = s
+            if isinstance(s, (ast.If, ast.While)):
+                # only the test belongs to this statement
+                probe = ast.copy_location(ast.Expr(value=s.test), s)
+            types = self.stmt_raiser(probe)
             if types:
                 sx = st.fork()
                 ev = self.emit(sx, 'stmt-fails', s, None)
